@@ -401,7 +401,14 @@ class Relax:
         ch0 = e.children()
         intcmp = k in (z3.Z3_OP_LT, z3.Z3_OP_GT, z3.Z3_OP_LE, z3.Z3_OP_GE, z3.Z3_OP_EQ, z3.Z3_OP_DISTINCT) and \
             len(ch0) == 2 and ch0[0].sort().kind() == z3.Z3_INT_SORT
-        if k in (z3.Z3_OP_IDIV, z3.Z3_OP_MOD, z3.Z3_OP_REM, z3.Z3_OP_TO_INT, z3.Z3_OP_IS_INT):
+        if k == z3.Z3_OP_TO_INT:
+            # floor of a real term: a fresh (relaxed) integer r with r <= t < r + 1; equal terms get the same r (memo)
+            t_ = self.rx(ch0[0])
+            if not self.ok: return e
+            r_ = z3.Real('toint!%d!R' % len(self.tri))
+            self.tri[('toint', e.get_id())] = (e, r_, z3.And(r_ <= t_, t_ < r_ + 1))
+            return r_
+        if k in (z3.Z3_OP_IDIV, z3.Z3_OP_MOD, z3.Z3_OP_REM, z3.Z3_OP_IS_INT):
             self.ok = False; return e
         ch = [self.rx(c) for c in ch0]
         if not self.ok: return e
@@ -828,6 +835,10 @@ def discharge(hyps, goal, budget=20.0, skolems=(), want_model=True):
                 s = z3.Tactic('qfnra-nlsat').solver()
                 for f in rfs: s.add(f)
                 for _a, _b, f in rl.tri.values(): s.add(f)
+                _ti = [v_[1] for k_, v_ in rl.tri.items() if k_[0] == 'toint'][:12]
+                for i_ in range(len(_ti)):
+                    for j_ in range(i_ + 1, len(_ti)):       # two floors are equal or at least one apart
+                        s.add(z3.Or(_ti[i_] <= _ti[j_] - 1, _ti[i_] == _ti[j_], _ti[i_] >= _ti[j_] + 1))
                 r, dt = _check(s, budget * 1000)
                 log.append(('B1:nlsat-relaxed', r, round(dt, 3)))
                 if r == 'unsat': return done('proved', 'z3-nlsat')
